@@ -157,6 +157,29 @@ func (ReaderSvc) Consume(ctx context.Context, r io.Reader, pattern int, tag stri
 	return d, nil
 }
 
+// ConsumeAsync returns a channel at once and reads the stream in the background; it then sends the number of
+// bytes read, the first 8 bytes of their SHA-256 as an integer, -1 if the read ended with an error, and closes.
+func (ReaderSvc) ConsumeAsync(ctx context.Context, r io.Reader, tag string) (<-chan int64, error) {
+	out := make(chan int64, 3)
+	go func() {
+		defer close(out)
+		time.Sleep(20 * time.Millisecond) // the method has long returned when the first byte is read
+		h := sha256.New()
+		n, err := io.Copy(h, r)
+		out <- n
+		sum := h.Sum(nil)
+		var v int64
+		for _, b := range sum[:7] {
+			v = v<<8 | int64(b)
+		}
+		out <- v
+		if err != nil {
+			out <- -1
+		}
+	}()
+	return out, nil
+}
+
 type readerClient struct {
 	Consume func(ctx context.Context, r io.Reader, pattern int, tag string) (Digest, error)
 }
@@ -192,6 +215,8 @@ func (c20) Plan(tier string, seed int64) []core.Scenario {
 		out = append(out, core.Scenario{Kind: "retry-outage", N: map[string]int{"rk": []int{0, 4}[i]}, S: map[string]string{}})
 	}
 	out = append(out, core.Scenario{Kind: "close-live", N: map[string]int{"rk": 4}, S: map[string]string{}})
+	out = append(out, core.Scenario{Kind: "async-consumer", N: map[string]int{"rk": 0}, S: map[string]string{}})
+	out = append(out, core.Scenario{Kind: "two-clients", N: map[string]int{"rk": 0}, S: map[string]string{}})
 	// many small calls in quick succession from several goroutines: the upload and the RPC request of a call
 	// reach the server within microseconds of each other, and calls overlap
 	nb := 3
@@ -369,7 +394,7 @@ var uuidRe = regexp.MustCompile(`[0-9a-f]{8}-[0-9a-f]{4}-[0-9a-f]{4}-[0-9a-f]{4}
 
 func (c20) Run(sc core.Scenario) core.Result {
 	r := core.NewR(sc)
-	if sc.Kind == "retry-outage" || sc.Kind == "close-live" {
+	if sc.Kind == "retry-outage" || sc.Kind == "close-live" || sc.Kind == "async-consumer" || sc.Kind == "two-clients" {
 		c20Special(sc, r)
 		return r.Result()
 	}
